@@ -64,7 +64,7 @@ fn run(args: &[String]) -> String {
         "sm4_cbc_dec" | "sm4_cbc_enc" | "sm4_ctr" | "sm4_cfb_enc" | "sm4_cfb_dec" | "sm4_ofb" => {
             use gm_sm4::{CipherMode, Sm4CipherMode};
             let mode = match op {
-                "sm4_cbc_dec" | "sm4_cbc_enc" => CipherMode::Cbc,
+        "sm4_cbc_dec" | "sm4_cbc_enc" => CipherMode::Cbc,
                 "sm4_ctr" => CipherMode::Ctr,
                 "sm4_ofb" => CipherMode::Ofb,
                 _ => CipherMode::Cfb,
@@ -78,6 +78,24 @@ fn run(args: &[String]) -> String {
                 Ok(s) => format!("ok:{}", hex::encode(s)),
                 Err(e) => format!("err:{}", e),
             }
+        }
+        "sm2_asn1_roundtrip" => {
+            // sk msg n model : n x (encrypt_asn1 -> decrypt_asn1), reports failures
+            let sk = match gm_sm2::key::Sm2PrivateKey::new(&h(&args[1])) { Ok(p) => p, Err(e) => return format!("err:sk:{}", e) };
+            let pk = sk.public_key;
+            let msg = h(&args[2]);
+            let n: usize = args[3].parse().unwrap();
+            let mut bad = 0;
+            for _ in 0..n {
+                let m1 = if args[4] == "c1c2c3" { gm_sm2::key::Sm2Model::C1C2C3 } else { gm_sm2::key::Sm2Model::C1C3C2 };
+                let m2 = if args[4] == "c1c2c3" { gm_sm2::key::Sm2Model::C1C2C3 } else { gm_sm2::key::Sm2Model::C1C3C2 };
+                let r = std::panic::catch_unwind(|| {
+                    let ct = pk.encrypt_asn1(&msg, false, m1).unwrap();
+                    sk.decrypt_asn1(&ct, false, m2)
+                });
+                match r { Ok(Ok(m)) if m == msg => {}, _ => bad += 1 }
+            }
+            format!("ok:{} failures of {}", bad, n)
         }
         "sm4_enc" | "sm4_dec" => {
             let c = match gm_sm4::Sm4Cipher::new(&h(&args[1])) {
